@@ -48,6 +48,7 @@ type Work struct {
 	Nils      bool   `json:"nils,omitempty"`      // interface channels also carry nil items
 	Scale     int64  `json:"scale,omitempty"`     // numeric items are multiplied by this (negative and large values; 0 = 1)
 	CapExpr   int    `json:"cap_expr,omitempty"`  // how buffer sizes are spelled: 0 literal, 1 `1 + 1`-style sum, 2 float literal
+	Shadow    bool   `json:"shadow,omitempty"`    // outer variables named like the for-in loop variables exist (a for-in variable is a fresh binding per loop)
 }
 
 type Prop struct{}
@@ -96,6 +97,7 @@ func (Prop) Gen(seed int64, tier string) *harness.Case {
 		w.Scale = []int64{-1, 1000003, -4099, 70000000001}[r.Intn(4)]
 	}
 	w.CapExpr = r.Intn(3)
+	w.Shadow = r.Intn(2) == 0
 	if tier == "real" {
 		// the real-thread leg wants contention: many items, pools of receivers, no sleeps
 		for i := range w.Items {
@@ -236,6 +238,21 @@ func Render(w *Work) string {
 		fmt.Fprintf(&b, "cl%d = false\n", i)
 	}
 	b.WriteString("clres = false\n")
+	if w.Shadow {
+		// only for consumers written as for-in: the other two forms assign, and an assignment to an
+		// existing outer name would make the goroutines share that variable by the script's own doing
+		for i, f := range w.FwdForm {
+			if f%3 == 0 {
+				fmt.Fprintf(&b, "v%d = -1\n", i+1)
+			}
+		}
+		if w.Workers > 1 && w.WorkForm%3 == 0 {
+			b.WriteString("wv = -1\n")
+		}
+		if w.ConsForm%3 == 0 {
+			b.WriteString("vm = -1\n")
+		}
+	}
 	b.WriteString("dn = make(chan int64)\n")
 	sl := ""
 	if w.Sleep {
@@ -788,6 +805,11 @@ func (Prop) Shrink(c *harness.Case) []*harness.Case {
 	if w.CtxMode != 0 {
 		nw := cp()
 		nw.CtxMode = 0
+		emit(nw)
+	}
+	if w.Shadow {
+		nw := cp()
+		nw.Shadow = false
 		emit(nw)
 	}
 	if w.Workers > 2 {
